@@ -14,6 +14,10 @@ theorem keepCached_eq (a b : Nat) : keepCached a b = decide (a ≥ b) := by
   have : (checkCompare == "GtE") = true := by decide
   simp [this]
 
+/-- `_compile_from_file` regenerates a module generated from another file name (regenerated from the source;
+reverting that repair breaks this obligation) -/
+theorem module_checks_source_name : moduleChecksSourceName = true := by decide
+
 theorem threshold_den_pos : 0 < thresholdDen := by decide
 theorem sort_is_descending : sortDescending = true := by decide
 theorem slice_is_from_capacity : sliceFromCapacity = true := by decide
